@@ -244,11 +244,14 @@ def oracle (obs : List (List String × String)) : Verdict :=
             match (Spec.C09.check tr).find? (fun f => !f.isStale) with
             | some f => Verdict.fail (failReason f) tags
             | none =>
-              if Spec.C09.holdsOnConc tr calls then
+              if Spec.C09.sizeResidueRacingDelete tr calls then
+                Verdict.fail s!"size-residue-racing-delete:op#{tr.length}" (tags ++ ["conc"])
+              else if Spec.C09.sizeRacy tr calls then
+                Verdict.fail s!"size-wrong-concurrent:op#{tr.length}" (tags ++ ["conc"])
+              else if Spec.C09.holdsOnConc tr calls then
                 let overl := calls.any fun a => calls.any fun b => !a.same b && a.inv < b.ret && b.inv < a.ret
                 { ok := true, nontrivial := true,
-                  tags := tags ++ ["conc"] ++ (if overl then ["conc:overlapping"] else []) ++
-                    (if Spec.C09.sizeRacy tr calls then ["conc:size-racy"] else []) }
+                  tags := tags ++ ["conc"] ++ (if overl then ["conc:overlapping"] else []) }
               else if Spec.C09.lostWriteRacingDelete tr calls then
                 Verdict.fail s!"lost-write-racing-delete:op#{tr.length}" (tags ++ ["conc"])
               else Verdict.fail s!"non-linearizable-history:op#{tr.length}" (tags ++ ["conc"])
